@@ -107,25 +107,69 @@ Definition update_seeds (f : name -> Z -> Z -> res) (r : repl) (l : list entry)
   | RInt z => update_list f z l
   end.
 
+(* updater.update_seed(key, stream, r) for the i-th entry alone: the type of r
+   is tested after the key and the stream *)
+Fixpoint replace_nth (l : list entry) (i : nat) (e : entry) : list entry :=
+  match l, i with
+  | [], _ => []
+  | _ :: t, O => e :: t
+  | x :: t, S j => x :: replace_nth t j e
+  end.
+
+Definition update_one (f : name -> Z -> Z -> res) (r : repl) (i : nat) (l : list entry)
+  : list entry * option exn :=
+  match nth_error l i with
+  | None => (l, None)
+  | Some e =>
+      match e_kind e, r with
+      | KStream, RInt z =>
+          match f (e_name e) (e_orig e) z with
+          | Val s => (replace_nth l i (set_cur e s), None)
+          | Raise x => (l, Some x)
+          end
+      | _, _ => (l, Some ETypeError)
+      end
+  end.
+
+Inductive call := CAll (r : repl) | COne (i : nat) (r : repl).
+
+Definition do_call (f : name -> Z -> Z -> res) (c : call) (l : list entry)
+  : list entry * option exn :=
+  match c with
+  | CAll r => update_seeds f r l
+  | COne i r => update_one f r i l
+  end.
+
 (* ---------- configurations used by the correspondence ---------- *)
 Inductive fbkind :=
 | FSimple                 (* the default fallback: SimpleStreamUpdater() *)
-| FCustom (a b : Z).      (* a harness-defined updater: seed = orig + a * r + b * len(name) *)
+| FCustom (a b : Z)       (* a harness-defined updater: seed = orig + a * r + b * len(name) *)
+| FNested (tbl : list (name * list Z)).   (* another StreamSeedUpdater with the default fallback *)
 
 Inductive updater :=
 | USimple
 | UTable (tbl : list (name * list Z)) (fb : fbkind).
 
-Definition fb_fun (H : name -> Z) (fb : fbkind) : name -> Z -> Z -> res :=
+Definition fb_fun (tu : list (name * list Z) -> (name -> Z -> Z -> res) -> name -> Z -> Z -> res)
+  (H : name -> Z) (fb : fbkind) : name -> Z -> Z -> res :=
   match fb with
   | FSimple => simple_update H
   | FCustom a b => fun n orig r => Val (orig + a * r + b * Z.of_nat (length n))
+  | FNested tbl => tu tbl (simple_update H)
   end.
 
+(* the repaired tree; [str_hash] for H *)
 Definition updater_fun (H : name -> Z) (u : updater) : name -> Z -> Z -> res :=
   match u with
   | USimple => simple_update H
-  | UTable tbl fb => table_update tbl (fb_fun H fb)
+  | UTable tbl fb => table_update tbl (fb_fun table_update H fb)
+  end.
+
+(* the pinned tree, given the hash function of one interpreter process *)
+Definition updater_fun_pinned (H : name -> Z) (u : updater) : name -> Z -> Z -> res :=
+  match u with
+  | USimple => simple_update H
+  | UTable tbl fb => table_update_pinned tbl (fb_fun table_update_pinned H fb)
   end.
 
 (* ---------- correspondence ---------- *)
@@ -149,24 +193,35 @@ Fixpoint seeds_eqb (l : list entry) (s : list Z) : bool :=
   | _, _ => false
   end.
 
-(* a case: the updater, the streams in dict order, the replication number;
-   observed: seed() of every stream afterwards and the exception (if any) *)
-Definition case := (updater * list entry * repl * list Z * option exn)%type.
+(* a case: the updater, the streams in dict order, a sequence of calls; observed
+   after every call: seed() of every stream and the exception (if any) *)
+Definition obs := (call * list Z * option exn)%type.
+Definition case := (updater * list entry * list obs)%type.
 
-Definition case_ok (c : case) : bool :=
-  let '(u, l, r, seeds, ex) := c in
-  let '(l', x) := update_seeds (updater_fun str_hash u) r l in
-  seeds_eqb l' seeds && oexn_eqb x ex.
-
-(* the pinned tree, given the hash function of one interpreter process *)
-Definition updater_fun_pinned (H : name -> Z) (u : updater) : name -> Z -> Z -> res :=
-  match u with
-  | USimple => simple_update H
-  | UTable tbl fb => table_update_pinned tbl (fb_fun H fb)
+Fixpoint calls_ok (f : name -> Z -> Z -> res) (l : list entry) (os : list obs) : bool :=
+  match os with
+  | [] => true
+  | (c, seeds, ex) :: t =>
+      let '(l', x) := do_call f c l in
+      seeds_eqb l' seeds && oexn_eqb x ex && calls_ok f l' t
   end.
 
-Fixpoint mismatches_from (i : nat) (cases : list case) : list nat :=
+Definition case_ok (c : case) : bool :=
+  let '(u, l, os) := c in calls_ok (updater_fun str_hash u) l os.
+
+(* the pinned table lookup and an externally supplied value of hash(name) per
+   name (what one interpreter process computed) *)
+Fixpoint hash_of (tbl : list (name * Z)) (n : name) : Z :=
+  match tbl with
+  | [] => 0
+  | (k, v) :: r => if name_eqb k n then v else hash_of r n
+  end.
+
+Definition case_ok_pinned (htbl : list (name * Z)) (c : case) : bool :=
+  let '(u, l, os) := c in calls_ok (updater_fun_pinned (hash_of htbl) u) l os.
+
+Fixpoint mismatches_from (i : nat) (check : case -> bool) (cases : list case) : list nat :=
   match cases with
   | [] => []
-  | c :: r => if case_ok c then mismatches_from (S i) r else i :: mismatches_from (S i) r
+  | c :: r => if check c then mismatches_from (S i) check r else i :: mismatches_from (S i) check r
   end.
